@@ -11,6 +11,9 @@ def hooks_commits():
         return []
 
 CHECKS = {
+ "C06": ("golden", "exploration", "exhaustive agreement with a frozen reference table over an enumerated input set",
+         "A table generated once from the reference release (all cells r<=5, digit-pattern families to r=29 covering every face x quintant x resolution, sphere lattice x resolutions 0..29) is compared entry by entry with the current tree: same id wherever the reference answer contained the point with margin, same centre and corner points within 1e-9 deg wherever the reference output was self-consistent.",
+         "Trusts the committed table (golden/PROVENANCE.json with sha256); pins the Rust reference only, not the TS/Python ports.", "4 C06"),
  "C03": ("lattice", "exploration", "exhaustive enumeration of all cell pairs of a face (planar clipping) + exhaustive containing-cell search for lattice points",
          "For every resolution up to the bound: all same-face cell pairs clipped in the plane, interior points of every cell searched in all cells of the three nearest faces, every lattice point searched exhaustively (>=1 cell within the band, <=1 strictly), signed areas telescoping to 4 pi; at fine resolutions two-ring neighbourhoods found by lookup.",
          "Cross-face containment goes through the real forward projection (C15). No-gap verdict is for lattice points; the measure identity bounds the rest.", "4 C03"),
@@ -98,6 +101,7 @@ def main():
             {"name": "graph", "path": "harness/src/checks/graph.rs", "serves_properties": ["C07", "C20"], "kind_free_text": "explicit-state BFS over the cell hierarchy through the real functions"},
             {"name": "lattice", "path": "harness/src/checks/{lookup,cells,proj,frame}.rs", "serves_properties": ["C01","C02","C04","C11","C12","C15","C16","C18","C19"], "kind_free_text": "complete enumeration of finite lattices built from the code's case splits, with reference-geometry oracles"},
             {"name": "hilbert-automaton", "path": "harness/src/checks/hilbert.rs", "serves_properties": ["C17"], "kind_free_text": "exhaustive position enumeration + Mealy-machine model with conformance binding and pair-automaton exploration"},
+            {"name": "golden", "path": "harness/src/checks/golden.rs", "serves_properties": ["C06"], "kind_free_text": "frozen reference table (golden/*.bin) compared exhaustively with the current tree"},
             {"name": "setmachine", "path": "harness/src/checks/sets.rs", "serves_properties": ["C08", "C09", "C10"], "kind_free_text": "stateright BFS of a cell-set machine + subset and permutation enumeration"},
         ],
         "checks": checks,
